@@ -24,7 +24,7 @@ class PathCap(Exception):
 
 
 class Effect(object):
-    __slots__ = ("kind", "item", "key", "op", "value", "old", "extra", "site", "loops", "stack", "name", "args", "ver", "rd")
+    __slots__ = ("kind", "item", "key", "op", "value", "old", "extra", "site", "loops", "stack", "name", "args", "ver", "rd", "ignores_old")
 
     def __init__(self, kind, **kw):
         self.kind = kind
@@ -41,6 +41,7 @@ class Effect(object):
         self.args = kw.get("args")
         self.ver = None
         self.rd = None
+        self.ignores_old = False
 
     def __repr__(self):
         if self.kind in ("read", "write"):
